@@ -33,7 +33,9 @@ theorem core_value_split (ic : Ctx) (reg : List Ctx) (c : Ctx) (T tok v : Tok) (
   have hhv : m1.handle v = .ok (m.withCore (ic.setArg i a') (some (.initial, i)) true) := by
     unfold M.handle
     have hst1 : m1.st = .context := hr.st
-    simp only [hst1, hctx1, hvf, hvinv, Option.isSome_none, Bool.false_eq_true, if_false, reduceCtorEq, hw1, if_true]
+    have hop1 : m1.optionalPending = false := by simp [M.optionalPending, hfa1, ho]
+    simp only [hst1, hctx1, hvf, hvinv, Option.isSome_none, Bool.false_eq_true, if_false, reduceCtorEq, hw1, hop1, Bool.false_and,
+      Bool.not_false, Bool.and_self, if_true]
     unfold M.seeValue M.checkAmbiguity
     simp only [hfa1, ho, bind, Except.bind, ht, if_true, hs, Bool.false_eq_true, if_false]
     simp [M.updFlagArg, m1, hi, M.withCore, Ctx.setArg]
@@ -92,7 +94,9 @@ theorem core0_value_split (ic : Ctx) (T tok v : Tok) (i : Nat) (a a' : Arg) (n :
   have hhv : m1.handle v = .ok (coreM ic (ic.setArg i a') (some (.cur, i)) true) := by
     unfold M.handle
     have hst1 : m1.st = .context := rfl
-    simp only [hst1, hctx1, hvf, hvinv, Option.isSome_none, Bool.false_eq_true, if_false, reduceCtorEq, hw1, if_true]
+    have hop1 : m1.optionalPending = false := by simp [M.optionalPending, hfa1, ho]
+    simp only [hst1, hctx1, hvf, hvinv, Option.isSome_none, Bool.false_eq_true, if_false, reduceCtorEq, hw1, hop1, Bool.false_and,
+      Bool.not_false, Bool.and_self, if_true]
     unfold M.seeValue M.checkAmbiguity
     simp only [hfa1, ho, bind, Except.bind, ht, if_true, hs, Bool.false_eq_true, if_false]
     simp [M.updFlagArg, m1, M.start, M.ctx, M.setCtx, coreM, M.withCore, Ctx.setArg]
